@@ -66,6 +66,9 @@ def unit_info(unit):
 def mkq(q):
     if q is None:
         return None
+    if q.get("src"):
+        from efootprint.abstract_modeling_classes.explainable_object_base_class import Source
+        return SourceValue(q["m"] * u(q["u"]), source=Source(q["src"][0], q["src"][1]))
     return SourceValue(q["m"] * u(q["u"]))
 
 
